@@ -51,6 +51,8 @@ mod jit;
 mod no_std_error;
 mod stack;
 mod verifier;
+#[cfg(feature = "verif-hooks")]
+pub mod verif_hooks;
 
 /// Reexports all the types needed from the `std`, `core`, and `alloc`
 /// crates. This avoids elaborate import wrangling having to happen in every
@@ -721,6 +723,12 @@ impl<'a> EbpfVmMbuff<'a> {
             )),
         }
     }
+
+    /// Read-only view of the machine code emitted by the last successful `jit_compile()`.
+    #[cfg(all(feature = "verif-hooks", not(windows)))]
+    pub fn verif_jit_code(&self) -> Option<&[u8]> {
+        self.jit.as_ref().map(|jit| jit.verif_code())
+    }
 }
 
 /// A virtual machine to run eBPF program. This kind of VM is used for programs expecting to work
@@ -1348,6 +1356,12 @@ impl<'a> EbpfVmFixedMbuff<'a> {
             )),
         }
     }
+
+    /// Read-only view of the machine code emitted by the last successful `jit_compile()`.
+    #[cfg(all(feature = "verif-hooks", not(windows)))]
+    pub fn verif_jit_code(&self) -> Option<&[u8]> {
+        self.parent.verif_jit_code()
+    }
 }
 
 /// A virtual machine to run eBPF program. This kind of VM is used for programs expecting to work
@@ -1793,6 +1807,12 @@ impl<'a> EbpfVmRaw<'a> {
         let mut mbuff = vec![];
         self.parent.execute_program_cranelift(mem, &mut mbuff)
     }
+
+    /// Read-only view of the machine code emitted by the last successful `jit_compile()`.
+    #[cfg(all(feature = "verif-hooks", not(windows)))]
+    pub fn verif_jit_code(&self) -> Option<&[u8]> {
+        self.parent.verif_jit_code()
+    }
 }
 
 /// A virtual machine to run eBPF program. This kind of VM is used for programs that do not work
@@ -2182,5 +2202,11 @@ impl<'a> EbpfVmNoData<'a> {
     #[cfg(feature = "cranelift")]
     pub fn execute_program_cranelift(&self) -> Result<u64, Error> {
         self.parent.execute_program_cranelift(&mut [])
+    }
+
+    /// Read-only view of the machine code emitted by the last successful `jit_compile()`.
+    #[cfg(all(feature = "verif-hooks", not(windows)))]
+    pub fn verif_jit_code(&self) -> Option<&[u8]> {
+        self.parent.verif_jit_code()
     }
 }
